@@ -4,7 +4,7 @@ from __future__ import annotations
 import ast
 
 from .heap import Analysis, analyse, fmt, mutations_of_param, own_in_violations, own_out_violations
-from .model import norm
+from .model import norm, walk_own
 from .rules_store import IFACE, STORAGE_CLASSES
 
 IMMUTABLE_ANN = ("str", "int", "float", "bool", "datetime", "Optional[str]", "Optional[int]", "Optional[datetime]", "Optional[float]", "bytes", "timedelta")
@@ -40,6 +40,31 @@ def storage_analysis(prog, cname, mname):
     return fi, an
 
 
+MEMO_DECOS = ("lru_cache", "cache", "cached_property", "memoize", "memoized")
+MUTABLE_MAKERS = ("json.loads", "json.load", "dict", "list", "set", "copy.deepcopy", "deepcopy", "copy.copy", "copy", "Event", "defaultdict", "OrderedDict", "tomlkit.parse", "sorted")
+
+
+def memo_rule(prog, rep, rule="OWN-OUT"):
+    """a memoising decorator keeps what the function returned and hands the SAME object to every later caller: for a mutable
+    result that is process-wide shared state, behind the back of every copy the storage methods make"""
+    n = 0
+    for fi in prog.funcs.values():
+        decos = [d for d in fi.decorators if d.split("(")[0].split(".")[-1] in MEMO_DECOS]
+        if not decos:
+            continue
+        n += 1
+        bad = None
+        for r in [x for x in walk_own(fi.node) if isinstance(x, ast.Return) and x.value is not None]:
+            from .trace import deep
+
+            v = deep(r.value, fi)
+            for x in [v] + ([v.body, v.orelse] if isinstance(v, ast.IfExp) else []) + (list(v.values) if isinstance(v, ast.BoolOp) else []):
+                if isinstance(x, (ast.Dict, ast.List, ast.Set, ast.ListComp, ast.DictComp, ast.SetComp)) or (isinstance(x, ast.Call) and (norm(x.func) in MUTABLE_MAKERS or norm(x.func) in prog.class_by_name)):
+                    bad = bad or (r, x)
+        rep.check(bad is None, rule, fi.short, f"memoised with @{decos[0][:30]}", "returns immutable values only", (f"{fi.short} is memoised and returns a mutable object (`{norm(bad[1])[:50]}`): every caller gets the same dict / list, so what one reader does to the value it was handed (or a later write through it) shows up in the values handed to all other readers, of this and of other buckets" if bad else ""), fi.loc(bad[0]) if bad else fi.loc())
+    rep.extra["memoised_functions"] = n
+
+
 def own_rules(prog, rep, classes=STORAGE_CLASSES, methods=IFACE):
     rep.rule("OWN-IN", "no mutable object reachable from a parameter of a storage method becomes reachable from the store (any attribute of self); deepcopy and the JSON/SQL serialisation boundary cut the edge; str/number/datetime parameters and the Event fields id/timestamp/duration are immutable leaves")
     rep.rule("OWN-OUT", "nothing a public storage method returns is, reaches, or is reachable from an object held by the store")
@@ -68,6 +93,7 @@ def own_rules(prog, rep, classes=STORAGE_CLASSES, methods=IFACE):
             for u in an.unknown_methods_on_tracked:
                 rep.undecided("OWN-IN", short, f"call {u[1]}", f"unknown method on a tracked object {u[2]}", u[0])
     rep.floor("storage methods analysed for ownership", n, len(classes) * len(methods))
+    memo_rule(prog, rep)
     return n
 
 
